@@ -56,7 +56,7 @@ func codeCheck(t, d, off int, got []byte) (int, bool) {
 // Tunnel is one end-to-end tunnel of the workload.
 type Tunnel struct {
 	ID      int
-	Kind    string // "tcp", "domain", "forward", "udp", "icmp"
+	Kind    string // "tcp", "domain", "forward", "udp", "icmp", "shell", "file"
 	ICMPVia string // "socks" or "ping-api" (icmp only)
 	Ingress int
 	Exit    int
@@ -91,6 +91,28 @@ type Tunnel struct {
 	EphPub     [32]byte
 	hops       []hop // from the wire
 	started    time.Duration
+	// shell tunnels (shelltunnel_test.go)
+	Prog         string // "simcat", "simgen", "simsink"
+	ErrBytes     int    // bytes the process writes to stderr
+	WantExit     int    // exit status of the process
+	Abandon      bool   // the client walks away while the command is still running
+	AbandonAfter time.Duration
+	shStdinSent  int
+	shAcked      bool
+	shRemoteErr  string
+	shExitSeen   bool
+	shExit       int
+	shErrGot     int
+	// file transfers (filetunnel_test.go)
+	FileOp       string // "upload", "download", "download-stream", "upload-dir", "download-dir"
+	ftFiles      []fileEntry
+	ftSrc, ftDst string
+	ftExitKey    *[32]byte
+	ftIngressKey *[32]byte
+	ftFirstFrame []byte
+	ftKeyChecked bool
+	// shell and file: a delivery failure was noted in a run that does not decide delivery
+	deliverySoftFailed bool
 }
 
 type hop struct {
@@ -116,6 +138,15 @@ type TunnelSet struct {
 	DataFrames     int
 	frameLenBad    string
 	keys           map[[32]byte]int
+	// shell and file tunnels
+	DecideDelivery       bool // delivery failures of shell / file tunnels are violations (C07)
+	shellProgsRegistered bool
+	xEph                 map[[32]byte]*Tunnel // ephemeral key -> shell / file tunnel
+	opening              *Tunnel              // the shell / file tunnel whose open is about to leave the ingress
+	openQ                simrt.WaitQ
+	ftDir                string // per-run scratch directory of file transfers
+	ftOldTmp             string
+	ftHadTmp             bool
 }
 
 func NewTunnelSet(m *Mesh) *TunnelSet {
@@ -199,6 +230,14 @@ func (ts *TunnelSet) Add(t *Tunnel) {
 	}
 	if t.Kind == "icmp" {
 		ts.addICMP(t)
+		return
+	}
+	if t.Kind == "shell" {
+		ts.addShell(t)
+		return
+	}
+	if t.Kind == "file" {
+		ts.addFile(t)
 		return
 	}
 	switch t.Kind {
@@ -351,6 +390,14 @@ func (ts *TunnelSet) Start(t *Tunnel) {
 	}
 	if t.Kind == "icmp" {
 		ts.startICMP(t)
+		return
+	}
+	if t.Kind == "shell" {
+		ts.startShell(t)
+		return
+	}
+	if t.Kind == "file" {
+		ts.startFile(t)
 		return
 	}
 	nd := ts.m.Nodes[t.Ingress]
